@@ -83,9 +83,10 @@ Dev(d, m, v, marks) ==
     [] d = "gossip-sync-period-boundary" ->
          \* At the last slot of a sync-committee period the specification selects the NEXT committee
          \* (compute_subnets_for_sync_committee uses the epoch of slot+1); zrnt always uses the current one.
-         /\ m.topic \in {"syncmsg", "contrib"} /\ E.variant \in {"period-boundary", "period-boundary-old-committee"}
-         /\ \/ (E.variant = "period-boundary" /\ FailNames(m) = {} /\ v = "REJECT" /\ marks = {})
-            \/ (E.variant = "period-boundary-old-committee" /\ v = "ACCEPT" /\ marks = KeysOf(m))
+         /\ m.topic \in {"syncmsg", "contrib"}
+         /\ E.variant \in {"period-boundary", "period-boundary+single-participant", "period-boundary-old-committee"}
+         /\ \/ (E.variant # "period-boundary-old-committee" /\ FailNames(m) = {} /\ v = "REJECT" /\ marks = {})
+            \/ (E.variant = "period-boundary-old-committee" /\ FailNames(m) = {"subnet_valid"} /\ v = "ACCEPT" /\ marks = KeysOf(m))
     [] d = "gossip-contrib-single-participant" ->
          \* SyncCommitteeSubnetBits.OnesCount counts a bitVECTOR with the bitLIST routine (which drops the
          \* highest set bit as delimiter): a contribution with exactly one participant "has none".
@@ -131,7 +132,7 @@ DoMsg ==
                 THEN Adopt(marks)
                 ELSE LET ds == Explaining(m, v, marks) IN
                      IF ds # {}
-                     THEN Report("DEVIATION", CHOOSE d \in ds : TRUE, FailNames(m)) /\ Adopt(marks)
+                     THEN Report("DEVIATION", ds, FailNames(m)) /\ Adopt(marks)
                      ELSE Report("MISMATCH", FailNames(m), <<Allowed(seen, m), "marks iff ACCEPT", KeysOf(m)>>) /\ Adopt(marks)
 
 Next == /\ l <= Len(Trace)
